@@ -1446,6 +1446,13 @@ impl<'p, 'a> Machine<'p, 'a> {
       }
       match instr {
         Instr::Binary { dst, op, a, b, str_cmp } => {
+          // `x + 0` is the IR's move idiom (the inliner binds a callee's return value with it,
+          // "will be optimized away eventually"): for a non-int operand it moves the value
+          if *op == Op::PLUS && matches!(self.try_int(base, *b), Some(0)) && self.try_int(base, *a).is_none() {
+            let va = tri!(self.val(func, base, *a));
+            self.stack[base + *dst as usize] = va;
+            continue;
+          }
           let r = if let (Some(x), Some(y)) = (self.try_int(base, *a), self.try_int(base, *b)) {
             tri!(self.arith(*op, x, y))
           } else if matches!(op, Op::EQ | Op::NE) {
